@@ -322,6 +322,13 @@ class PrintrunWriter(BaseWriter):
     def _on_printrun_error(self, message: str) -> None:
         """Callback to handle errors reported by printrun."""
 
+        # Printrun also reports the 'Error' replies of the device, but
+        # those were already delivered to (and handled by) the receive
+        # callback: handling them twice would blame the next statement.
+
+        if message.strip().lower().startswith(ERROR_PREFIXES):
+            return
+
         self._logger.error("Error: %s", message)
         self._device_error = DeviceError(message)
         self._ack_event.set()
